@@ -741,7 +741,16 @@ impl World {
                 return false;
             }
             let free = self.pipes[pipe].free();
-            if free == 0 {
+            // the shell's own `echo` of a divider line is one write of less than PIPE_BUF bytes:
+            // atomic - it arrives whole or not at all (POSIX), unlike what a command writes
+            let atomic_len = {
+                let r = self.procs[pi].cur.as_ref().unwrap();
+                match (&r.nonce, &r.pending) {
+                    (None, Some((_, d))) if d.len() <= 4096 => Some(d.len()),
+                    _ => None,
+                }
+            };
+            if free == 0 || atomic_len.map(|n| free < n).unwrap_or(false) {
                 if !self.pipes[pipe].blocked_writers.contains(&pid) {
                     self.pipes[pipe].blocked_writers.push(pid);
                 }
@@ -753,7 +762,10 @@ impl World {
                 return false;
             }
             let chunk_max = self.sc.swarm.chunk_max.max(1) as u64;
-            let chunk = 1 + self.choose(chunk_max) as usize;
+            let chunk = match atomic_len {
+                Some(n) => n,
+                None => 1 + self.choose(chunk_max) as usize,
+            };
             let now = self.now;
             let r = self.procs[pi].cur.as_mut().unwrap();
             if let Some(b) = r.blocked_since.take() {
